@@ -101,7 +101,9 @@ def run (c : Case) : Except String Out :=
 def model (c : Case) : Obs :=
   { result := Res.ofExcept (run c), argUnchanged := true,
     roundtrip := if roundtripApplies c then some true else none,
-    faultFired := false, stable := true }
+    faultFired := false, stable := true,
+    filterCalls := if isOkE (run c) then expectedCalls c .filter else none,
+    serCalls := if isOkE (run c) then expectedCalls c .ser else none }
 
 end Attrs.C13.Old
 
